@@ -4,7 +4,7 @@ from .. import core, gens
 from ..core import Case
 
 ID = "C06"
-NEEDS_BINARY = False
+NEEDS_BINARY = True
 RULE = ("histories of job launches (foreground / background pipelines of 1..3 processes, process ids not monotone), child status changes "
         "(stop / continue cycles ending in exit or kill) and delivery points (a foreground wait consuming the pending notifications, the "
         "prompt-time poll): every history over a small bounded space (<= 2 jobs, <= 2 processes, <= 5 events, every delivery placement) and "
@@ -108,5 +108,45 @@ def generate(tier, rng):
     return cases
 
 
+# the `fg` / `bg` builtins on table rows whose members were stopped or continued one by one, and the foreground wait behind them:
+# real processes in a pseudo-terminal, compared with the small-step model of Model/Term.lean (machinery of C07)
+SESSIONS = [
+    "L:b:S,S;T:1;E;F:1;Z;J",            # one member stopped from outside, the job resumed by fg, then Ctrl-Z: the wait must return
+    "L:b:S,S;T:1;E;F:1;C;J",
+    "L:b:S,S;T:2;E;B:1;J;F:1;C",
+    "L:b:S;T:1;E;J;F:1;Z;J;B:1;J;K:1;E;J",
+    "L:f:S,S;Z;F;Z;J;F;C;J",
+    "L:b:S,S,S;T:2;E;T:3;E;F:1;Z;J;F:1;C",
+    "L:b:S;L:b:S,S;T:3;E;F:2;Z;J;F:1;C;J",
+]
+
+
+# the pty sessions are classified by C07's driver; the same input-level classes under the names of C06's findings
+# (a member of a multi-process job stopped on its own; stop and continue of one process between two polls)
+CLASS_NAMES = {"member-signalled-alone": "multi-process-job-with-stop", "wait-counts-member-twice": "multi-process-job-with-stop",
+               "stop-cont-parked-together": "stop-cont-same-pid-same-interval"}
+
+
+def process(tier, rng, cicada):
+    from . import c07
+    return c07.process(tier, rng, cicada, corpus=SESSIONS, nrandom=0 if tier == "quick" else 60)
+
+
+def project(c, s):
+    if c.stream == "term":
+        from . import c07
+        return c07.project(c, s)
+    return s
+
+
+def post(rep):
+    from . import c07
+    rep.notes.extend(c07.NOTES[:20])
+    for k, v in sorted(c07.STATS.items()):
+        rep.extra["pty_" + k] = v
+
+
 def nontrivial(c, M, S, g, cls):
+    if c.stream == "term":
+        return c.fields[0]
     return c.meta["h"] if c.meta["h"].count("E:") >= 2 else None
